@@ -9,6 +9,7 @@ HERE = os.path.dirname(os.path.dirname(os.path.abspath(__file__)))
 sys.path.insert(0, HERE)
 
 HOOK_COMMITS = []
+FUZZED = ('C01', 'C06', 'C07', 'C08', 'C09', 'C15')
 
 # id -> (technique, level text, level note, design ref)
 CHECKS = {}
@@ -229,7 +230,11 @@ def main():
             level_claimed=dict(category='exploration', text=text,
                                design_ref=ref),
             level_note=note,
-            technique=tech,
+            technique=tech + (
+                '; plus a coverage-guided atheris/libFuzzer campaign over'
+                ' the same strategy and oracle (thorough tier'
+                + (', smoke-sized in quick' if pid in ('C07', 'C08') else '')
+                + ')' if pid in FUZZED else ''),
         ))
     claimed = {c['property_id'] for c in checks}
     na = []
@@ -248,7 +253,12 @@ def main():
             '/venv/bin/python -c "import hypothesis" 2>/dev/null ||'
             ' /venv/bin/pip install --no-index --find-links'
             ' /opt/veriftools/wheels hypothesis; /venv/bin/python -c'
-            ' "import hypothesis; print(hypothesis.__version__)"'
+            ' "import hypothesis; print(hypothesis.__version__)";'
+            ' PYTHONPATH=/verif/.deps /venv/bin/python -c "import atheris"'
+            ' 2>/dev/null || /venv/bin/pip install -q --no-index'
+            ' --find-links /opt/veriftools/wheels --target /verif/.deps'
+            ' atheris || echo "atheris unavailable: coverage-guided part'
+            ' will be skipped"'
         ),
         hooks=dict(
             guard='UOFTCPRG_POKERKIT_VERIF',
@@ -264,7 +274,9 @@ def main():
             serves_properties=sorted(claimed),
             kind_free_text='Hypothesis-driven history engine (config +'
                            ' tape interpreter), reference models, sharded'
-                           ' runner',
+                           ' runner, atheris/libFuzzer campaign driver'
+                           ' (pkv/fuzz.py) over the same strategies and'
+                           ' oracles',
         )],
         checks=checks,
         notes='All checks: ./check <ID> --tier quick|thorough; exit 0 held,'
